@@ -763,9 +763,12 @@ def detrend_1d(arr: np.ndarray) -> np.ndarray:
     if m == 1:
         return np.zeros(1, dtype=arr.dtype)
 
-    x_sum = m * (m - 1) / 2
+    # Sums of the sample indices in floating point: the integer product
+    # m * (m - 1) * (2 * m - 1) overflows int64 beyond ~1.6 million samples.
+    mf = float(m)
+    x_sum = mf * (mf - 1) / 2
     y_sum = 0.0
-    x_sq_sum = m * (m - 1) * (2 * m - 1) / 6
+    x_sq_sum = mf * (mf - 1) * (2 * mf - 1) / 6
     x_y_sum = 0.0
 
     for i in range(m):
